@@ -131,8 +131,29 @@ func (c *faultConn) Prepare(query string) (driver.Stmt, error) { return c.c.Prep
 func (c *faultConn) Close() error                              { return c.c.Close() }
 func (c *faultConn) Begin() (driver.Tx, error)                 { return c.c.Begin() }
 func (c *faultConn) BeginTx(ctx context.Context, opts driver.TxOptions) (driver.Tx, error) {
-	return c.c.BeginTx(ctx, opts)
+	tx, err := c.c.BeginTx(ctx, opts)
+	if err != nil || planOf(ctx) == nil || opts.ReadOnly {
+		return tx, err
+	}
+	return &faultTx{tx: tx, p: planOf(ctx)}, nil
 }
+
+// faultTx makes the COMMIT of a write transaction an injection opportunity: the
+// driver-level commit fails (disk full, serialization failure, connection loss)
+// and the database has rolled the transaction back.
+type faultTx struct {
+	tx driver.Tx
+	p  *plan
+}
+
+func (t *faultTx) Commit() error {
+	if t.p.opportunity("sql:COMMIT") {
+		_ = t.tx.Rollback()
+		return errInjected
+	}
+	return t.tx.Commit()
+}
+func (t *faultTx) Rollback() error { return t.tx.Rollback() }
 func (c *faultConn) PrepareContext(ctx context.Context, query string) (driver.Stmt, error) {
 	return c.c.PrepareContext(ctx, query)
 }
